@@ -23,6 +23,13 @@ type kase struct {
 	S       string `json:"s,omitempty"`      // pairing definition
 	C       string `json:"c,omitempty"`
 	Letters []byte `json:"letters,omitempty"` // AllValid input
+	// Prev: an alphabet with this definition and the OTHER case sensitivity (same molecule type, gap and
+	// ambiguity letter) is built directly before the one of the case
+	Prev string `json:"prev,omitempty"`
+	Gap  byte   `json:"gap,omitempty"` // gap letter handed to the constructors (default '-')
+	// AgreeOnly: a case-insensitive complementor over a pairing spelt in one case only; what such a
+	// complementor makes of the other case is left open, but its method and its table must agree
+	AgreeOnly bool `json:"agree_only,omitempty"`
 }
 
 type builtin struct {
@@ -253,7 +260,14 @@ func check(c *enum.Ctx, k kase) bool {
 	case "new-alphabet":
 		var a alphabet.Alphabet
 		var err error
-		if c.Guard("NewAlphabet/panic", k, func() { a, err = alphabet.NewAlphabet(k.Def, feat.DNA, '-', 'n', k.Cased) }) {
+		gap := alphabet.Letter('-')
+		if k.Gap != 0 {
+			gap = alphabet.Letter(k.Gap)
+		}
+		if k.Prev != "" {
+			alphabet.NewAlphabet(k.Prev, feat.DNA, gap, 'n', !k.Cased)
+		}
+		if c.Guard("NewAlphabet/panic", k, func() { a, err = alphabet.NewAlphabet(k.Def, feat.DNA, gap, 'n', k.Cased) }) {
 			return true
 		}
 		ascii := true
@@ -299,6 +313,20 @@ func check(c *enum.Ctx, k kase) bool {
 		if valid && err != nil {
 			c.Fail("NewPairing/valid-rejected", k, "NewPairing(%q,%q) = %v", k.S, k.C, err)
 		}
+		if valid && err == nil && k.Def != "" && k.AgreeOnly {
+			cm, err := alphabet.NewComplementor(k.Def, feat.DNA, p, '-', 'n', false)
+			if err != nil {
+				return false // whether a one-case pairing closes a case-insensitive alphabet is left open
+			}
+			tab := cm.ComplementTable()
+			for l := 0; l < 256 && len(tab) == 256; l++ {
+				got, ok := cm.Complement(alphabet.Letter(l))
+				if (tab[l]&0x80 != 0) != !ok || (ok && tab[l] != got) {
+					c.Fail("complementor/one-case-pairing/method-vs-table", k, "Complement(%q) = (%q,%v) but table[%q] = %#x", byte(l), byte(got), ok, byte(l), byte(tab[l]))
+				}
+			}
+			return true
+		}
 		if valid && err == nil && k.Def != "" {
 			// complementor over an alphabet the pairing is closed over
 			if k.Reused {
@@ -320,7 +348,7 @@ func check(c *enum.Ctx, k kase) bool {
 }
 
 func run(c *enum.Ctx) {
-	c.Rule("complete: 7 built-in alphabets x all 256 letters (validity, index, letter, complement method/table) and every letter slice of length <=3 over {valid lower, valid upper, invalid, 0xFF} and every slice of length 4..19, 63..66, 258, 259 and 2^k-1, 2^k, 2^k+1 (127..1025) of valid letters with zero, one or two invalid letters at every position; bounded-exhaustive: every alphabet definition of length 1..4 over {a,B,c,-,*} without case-duplicates, cased and uncased; every pair of strings of length <=3 over {a,c,g,t} (plus mismatched lengths and a non-ASCII rune at every position) as a pairing definition, with a complementor over every alphabet it is closed over, cased and uncased, the uncased ones also spelt in upper and mixed case (also with a Pairing value that served a case-insensitive complementor first); distinct = distinct case descriptors; non-trivial = cases where a constructor succeeded or a built-in was queried")
+	c.Rule("complete: 7 built-in alphabets x all 256 letters (validity, index, letter, complement method/table) and every letter slice of length <=3 over {valid lower, valid upper, invalid, 0xFF} and every slice of length 4..19, 63..66, 258, 259 and 2^k-1, 2^k, 2^k+1 (127..1025) of valid letters with zero, one or two invalid letters at every position; bounded-exhaustive: every alphabet definition of length 1..4 over {a,B,c,-,*} without case-duplicates, cased and uncased, and every case-sensitive definition of length 1..4 over {a,A,B,b,c} that holds a letter in both cases; a case-insensitive alphabet and the case-sensitive one with the same expanded letters built in turn, in either order; every pair of strings of length <=3 over {a,c,g,t} (plus mismatched lengths and a non-ASCII rune at every position) as a pairing definition, with a complementor over every alphabet it is closed over, cased and uncased, the uncased ones also spelt in upper and mixed case (also with a Pairing value that served a case-insensitive complementor first), and a case-insensitive complementor over the pairing spelt in one case only (method and table must agree on all 256 letters); distinct = distinct case descriptors; non-trivial = cases where a constructor succeeded or a built-in was queried")
 	c.Assume("reference definitions of the built-in alphabets are restated in the harness from the package documentation")
 	n := 0
 	do := func(k kase) {
@@ -390,6 +418,34 @@ func run(c *enum.Ctx) {
 			}
 		}
 	})
+	// case-sensitive alphabets that hold a letter in both cases (distinct letters there): every
+	// definition of length 1..4 over {a,A,B,b,c} of distinct bytes
+	enum.Strings("aABbc", 1, defMax, func(d []byte) {
+		seen, both := map[byte]bool{}, false
+		for _, l := range d {
+			if seen[l] {
+				return
+			}
+			both = both || seen[l^0x20]
+			seen[l] = true
+		}
+		if !both {
+			return
+		}
+		do(kase{Kind: "new-alphabet", Def: string(d), Cased: true})
+		do(kase{Kind: "new-alphabet", Def: string(d), Cased: true, Letters: []byte{d[0], d[0] ^ 0x20, 'C', d[len(d)-1]}})
+	})
+	// two alphabets used in turn whose letters are the same once case is expanded: case-insensitive D
+	// and case-sensitive lower(D)+upper(D), in either order of construction (the second order with
+	// another gap letter, so that neither has been built before in this process)
+	for _, d := range []string{"a", "ac", "acg", "acgt", "tgca"} {
+		full := d + strings.ToUpper(d)
+		for _, ls := range [][]byte{nil, {d[0], full[len(full)-1], 'n'}} {
+			do(kase{Kind: "new-alphabet", Def: full, Cased: true, Prev: d, Letters: ls})
+			do(kase{Kind: "new-alphabet", Def: d, Cased: false, Prev: full, Gap: '*', Letters: ls})
+			do(kase{Kind: "new-alphabet", Def: full, Cased: true, Gap: '*', Letters: ls})
+		}
+	}
 	for pos := 0; pos <= 2; pos++ {
 		d := []rune("ac")
 		nd := append(append(append([]rune{}, d[:pos]...), 'é'), d[pos:]...)
@@ -417,6 +473,8 @@ func run(c *enum.Ctx) {
 				}
 				do(kase{Kind: "new-pairing", S: s, C: cs, Def: def, Cased: true})
 				do(kase{Kind: "new-pairing", S: s, C: cs, Def: def, Cased: true, Reused: true})
+				do(kase{Kind: "new-pairing", S: s, C: cs, Def: def, AgreeOnly: true})
+				do(kase{Kind: "new-pairing", S: strings.ToUpper(s), C: strings.ToUpper(cs), Def: def, AgreeOnly: true})
 				up := strings.ToUpper(s)
 				upc := strings.ToUpper(cs)
 				do(kase{Kind: "new-pairing", S: s + up, C: cs + upc, Def: def, Cased: false})
